@@ -526,7 +526,7 @@ func (ex *Exec) fmtInt(t string) string {
 }
 
 func sortedNames(m map[string]bool) []string {
-	var ks []string
+	ks := []string{}
 	for k := range m {
 		ks = append(ks, k)
 	}
